@@ -33,6 +33,14 @@ CLAIMED = {
               "C03_queue_shrinks, C03_all_items, C03_order_independent(+_perm,_item), hashEq_perm; for an arbitrary glob matcher. "
               "Correspondence: Lean Glob vs fnmatch exhaustively for short patterns; verify_item_rules on random worlds with REQUIRE probes.",
               "fnmatch.translate of CPython 3.12 is modelled and exhaustively compared at small scope, not proved."),
+    "C04": _c("Theorem C04_rules_iff: for the closed chain rule shape (REQUIRE every product of the previous step, MATCH * WITH PRODUCTS, "
+              "DISALLOW *) and any matcher for which * matches everything, the rule stage passes iff the step's materials are exactly "
+              "the previous step's products (same paths, equal hash records) - so any covered file modified / added / removed / renamed "
+              "between two steps or in the final product fails, and nothing else does; with C10_record_spec / C10_walk_iff (what a "
+              "recording is) and C02_retained_good (edited / swapped / unauthorised links never count). Correspondence: real round "
+              "trips with in_toto_run / record start+stop, a derived closed layout, one tamper event, real in_toto_verify and the Lean "
+              "verify on the files in-toto wrote.",
+              "The pipeline-level statement is composed from the stage theorems; it is exercised end-to-end by the correspondence only."),
     "C05": _c("Theorems C05_agreeing_group (threshold > 1: >= threshold retained links, all equal to the first on materials and "
               "products, and the first is what rules, referencing rules and the summary link use), reduce_is_first, "
               "C05_disagree_rejected (any position), C05_constraint_failure_rejects. Correspondence: thresholds 1-3, 2-4 signers, "
@@ -73,6 +81,39 @@ CLAIMED = {
               "non-ASCII-sorting names; synthetic OSTree repositories.",
               "SHA-256 collision freedom is what turns text injectivity into digest sensitivity; C-locale collation = code-point order is "
               "checked by correspondence."),
+    "C11": _c("Theorems C11_link_spec (materials = recording before, products = recording after, command, exit status and - only if "
+              "requested - output, signer, file written under <dir>/<name>.<keyid8>.link identical to the returned link, nothing "
+              "written without a key) and C04_rules_iff (completeness direction: an honest chain passes the closed rules). "
+              "Correspondence: every link written in the C04 round trips is judged against independent before / after snapshots, and "
+              "honest histories (plus content-preserving rewrites and excluded files) must verify.",
+              "Honest-chain acceptance through the whole pipeline is established by correspondence, not by a single theorem."),
+    "C12": _c("Theorems C12_stop_spec (success iff the preliminary record exists, is intact and was signed by the same key; the result "
+              "holds the start-time materials and stop-time products), C12_stop_failure_cases, C12_ops_refine, C12_crash_safe (for every "
+              "number of completed operations, incl. a crash inside the write: preliminary intact or final complete), C12_retry, "
+              "C12_disjoint_names. Correspondence: audit trace of the real stop = model operation list; the process killed at every "
+              "audited operation and at five byte offsets of the final write, surviving directory = model crash state, retry succeeds; "
+              "missing / edited / re-signed / foreign preliminary records; interleaved start / stop / run of two names and keys.",
+              "'The process dies' = os._exit at an audited operation or inside write(); power-loss durability (fsync) is outside."),
+    "C13": _c("Theorems C13_exact (for every schedule of child writes / polls / exit, every read-chunk size and every chunking: returned "
+              "status = exit status, captured text = universal-newline translation of the decoding of all bytes written), "
+              "translateNL_append, nl_nonfinal, nl_final (the newline translator does not depend on chunk boundaries), C13_timeout, "
+              "C13_status, latin1_chunkIndependent (non-vacuity), and three kernel-checked regression witnesses for the loop before the "
+              "repair (old_loop_loses_output, _splits_char, _doubles_newline). Correspondence: the real function under a scripted Popen "
+              "and clock (deterministic interleavings), exhaustive for <= 3 polls over a 5-chunk alphabet.",
+              "The incremental UTF-8 decoder's chunking independence is a hypothesis (compared with CPython on every schedule); kernel "
+              "scheduling and real timing are not modelled."),
+    "C15": _c("Theorems C15_restored (every program built from neutral operations and the code's three brackets - chdir / settings / capture "
+              "files - restores cwd, ARTIFACT_BASE_PATH and the temp set under every fault plan, whether it returns or raises), "
+              "C15_entry_points (recording, stream capture, in_toto_run, inspections), and regression witnesses old_chdir_not_restored, "
+              "old_capture_file_leaked. Correspondence / fault enumeration: 20 call shapes traced with an audit hook, an OSError injected "
+              "at every traced operation in turn, state compared before / after, raised-or-not compared with the model's exec.",
+              "Faults at the restoring operations themselves are enumerated but not judged; os.walk swallows scandir errors."),
+    "C18": _c("Theorems C18_zero_iff (status 0 iff the named success, for every tool and outcome class), C18_usage, C18_verify_failure, "
+              "C18_sign_verify_failure, C18_other_failures, C18_range. The theorem is a decision table; the weight is in the "
+              "correspondence: every front end's main() over verification scenarios of C02 / C05-C08 with --verification-keys, "
+              "--layout-keys and --gpg, run / record / mock / sign / match-products with their failure and usage variants, both formats; "
+              "status 0 iff the library call succeeded and the output file exists.",
+              "Translation-validation in character: the outcome class of each invocation is established by the library call."),
     "C14": _c("Theorems C14_signature_check_equiv (same signers, distinct key ids, non-gpg key: first-match and any-match checks agree), "
               "C14_layout_format_irrelevant (verdict, summary link and trace depend on the layout's container only through payload and "
               "check outcomes), C14_envelope_untouched. Correspondence: every C02 / C05 / C06 / C07 / C08 scenario materialised under "
